@@ -61,6 +61,7 @@ func lemma_C19_Notification(withPrior bool, pre []byte, proto uint8, typ uint16,
 	verifAssert(len(c) == n0+1 && verifUntouched(c, p0, pre), "C19/Notification/appends-one-leaves-rest")
 	x, ok := c[n0].(*Notification)
 	verifAssert(ok && x.ProtocolID == proto && x.NotifyMessageType == typ && verifBytesEq(x.SPI, spi) && verifBytesEq(x.NotificationData, data), "C19/Notification/fields")
+	verifAssert(verifFresh(x.SPI) && verifDisjoint(x.SPI, spi) && verifFresh(x.NotificationData) && verifDisjoint(x.NotificationData, data), "C19/Notification/data-copied-into-fresh-storage")
 }
 
 func lemma_C19_Certificate(withPrior bool, pre []byte, enc uint8, data []byte) {
@@ -71,6 +72,7 @@ func lemma_C19_Certificate(withPrior bool, pre []byte, enc uint8, data []byte) {
 	verifAssert(len(c) == n0+1 && verifUntouched(c, p0, pre), "C19/Certificate/appends-one-leaves-rest")
 	x, ok := c[n0].(*Certificate)
 	verifAssert(ok && x.CertificateEncoding == enc && verifBytesEq(x.CertificateData, data), "C19/Certificate/fields")
+	verifAssert(verifFresh(x.CertificateData) && verifDisjoint(x.CertificateData, data), "C19/Certificate/data-copied-into-fresh-storage")
 }
 
 func lemma_C19_Encrypted(withPrior bool, pre []byte, next uint8, data []byte) {
@@ -92,6 +94,7 @@ func lemma_C19_KeyExchange(withPrior bool, pre []byte, group uint16, data []byte
 	verifAssert(len(c) == n0+1 && verifUntouched(c, p0, pre), "C19/KeyExchange/appends-one-leaves-rest")
 	x, ok := c[n0].(*KeyExchange)
 	verifAssert(ok && x.DiffieHellmanGroup == group && verifBytesEq(x.KeyExchangeData, data), "C19/KeyExchange/fields")
+	verifAssert(verifFresh(x.KeyExchangeData) && verifDisjoint(x.KeyExchangeData, data), "C19/KeyExchange/data-copied-into-fresh-storage")
 }
 
 func lemma_C19_IDi(withPrior bool, pre []byte, t uint8, data []byte) {
@@ -102,6 +105,7 @@ func lemma_C19_IDi(withPrior bool, pre []byte, t uint8, data []byte) {
 	verifAssert(len(c) == n0+1 && verifUntouched(c, p0, pre), "C19/IDi/appends-one-leaves-rest")
 	x, ok := c[n0].(*IdentificationInitiator)
 	verifAssert(ok && x.IDType == t && verifBytesEq(x.IDData, data), "C19/IDi/fields")
+	verifAssert(verifFresh(x.IDData) && verifDisjoint(x.IDData, data), "C19/IDi/data-copied-into-fresh-storage")
 }
 
 func lemma_C19_IDr(withPrior bool, pre []byte, t uint8, data []byte) {
@@ -112,6 +116,7 @@ func lemma_C19_IDr(withPrior bool, pre []byte, t uint8, data []byte) {
 	verifAssert(len(c) == n0+1 && verifUntouched(c, p0, pre), "C19/IDr/appends-one-leaves-rest")
 	x, ok := c[n0].(*IdentificationResponder)
 	verifAssert(ok && x.IDType == t && verifBytesEq(x.IDData, data), "C19/IDr/fields")
+	verifAssert(verifFresh(x.IDData) && verifDisjoint(x.IDData, data), "C19/IDr/data-copied-into-fresh-storage")
 }
 
 func lemma_C19_Authentication(withPrior bool, pre []byte, t uint8, data []byte) {
@@ -122,6 +127,7 @@ func lemma_C19_Authentication(withPrior bool, pre []byte, t uint8, data []byte) 
 	verifAssert(len(c) == n0+1 && verifUntouched(c, p0, pre), "C19/Authentication/appends-one-leaves-rest")
 	x, ok := c[n0].(*Authentication)
 	verifAssert(ok && x.AuthenticationMethod == t && verifBytesEq(x.AuthenticationData, data), "C19/Authentication/fields")
+	verifAssert(verifFresh(x.AuthenticationData) && verifDisjoint(x.AuthenticationData, data), "C19/Authentication/data-copied-into-fresh-storage")
 }
 
 func lemma_C19_Nonce(withPrior bool, pre []byte, data []byte) {
@@ -132,6 +138,7 @@ func lemma_C19_Nonce(withPrior bool, pre []byte, data []byte) {
 	verifAssert(len(c) == n0+1 && verifUntouched(c, p0, pre), "C19/Nonce/appends-one-leaves-rest")
 	x, ok := c[n0].(*Nonce)
 	verifAssert(ok && verifBytesEq(x.NonceData, data), "C19/Nonce/fields")
+	verifAssert(verifFresh(x.NonceData) && verifDisjoint(x.NonceData, data), "C19/Nonce/data-copied-into-fresh-storage")
 }
 
 func lemma_C19_Configuration(withPrior bool, pre []byte, t uint8, at uint16, av []byte, at2 uint16, av2 []byte) {
@@ -148,6 +155,7 @@ func lemma_C19_Configuration(withPrior bool, pre []byte, t uint8, at uint16, av 
 	a, b := r.ConfigurationAttribute[0], r.ConfigurationAttribute[1]
 	verifAssert(a.Type == at && verifBytesEq(a.Value, av), "C19/ConfigurationAttribute/first-untouched-by-second")
 	verifAssert(b.Type == at2 && verifBytesEq(b.Value, av2), "C19/ConfigurationAttribute/fields")
+	verifAssert(verifFresh(b.Value) && verifDisjoint(b.Value, av2), "C19/ConfigurationAttribute/data-copied-into-fresh-storage")
 	r.ConfigurationAttribute.Reset()
 	verifAssert(len(r.ConfigurationAttribute) == 0, "C19/ConfigurationAttribute/reset")
 }
@@ -167,6 +175,7 @@ func lemma_C19_TrafficSelectors(withPrior bool, pre []byte, tsType, proto uint8,
 	verifAssert(len(i.TrafficSelectors) == 2 && len(r.TrafficSelectors) == 0, "C19/TS/selector-appended-to-this-list-only")
 	s := i.TrafficSelectors[0]
 	verifAssert(s.TSType == tsType && s.IPProtocolID == proto && s.StartPort == sp && s.EndPort == ep && verifBytesEq(s.StartAddress, sa) && verifBytesEq(s.EndAddress, ea), "C19/TS/selector-fields")
+	verifAssert(verifFresh(s.StartAddress) && verifDisjoint(s.StartAddress, sa) && verifFresh(s.EndAddress) && verifDisjoint(s.EndAddress, ea), "C19/TS/data-copied-into-fresh-storage")
 	s2 := i.TrafficSelectors[1]
 	verifAssert(s2.TSType == tsType2 && s2.StartPort == ep && s2.EndPort == sp && verifBytesEq(s2.StartAddress, sa2), "C19/TS/second-selector-fields")
 	i.TrafficSelectors.Reset()
@@ -183,6 +192,7 @@ func lemma_C19_SecurityAssociation(withPrior bool, pre []byte, num, proto uint8,
 	verifAssert(ok && x == sa && len(sa.Proposals) == 0, "C19/SA/empty-sa")
 	p := sa.Proposals.BuildProposal(num, proto, spi)
 	verifAssert(len(sa.Proposals) == 1 && sa.Proposals[0] == p && p.ProposalNumber == num && p.ProtocolID == proto && verifBytesEq(p.SPI, spi), "C19/Proposal/fields")
+	verifAssert(verifFresh(p.SPI) && verifDisjoint(p.SPI, spi), "C19/Proposal/data-copied-into-fresh-storage")
 	verifAssert(len(p.EncryptionAlgorithm) == 0 && len(p.PseudorandomFunction) == 0 && len(p.IntegrityAlgorithm) == 0 && len(p.DiffieHellmanGroup) == 0 && len(p.ExtendedSequenceNumbers) == 0, "C19/Proposal/no-transforms-yet")
 	var pt, pv *uint16
 	if hasType {
@@ -204,6 +214,7 @@ func lemma_C19_SecurityAssociation(withPrior bool, pre []byte, num, proto uint8,
 	}
 	if hasType && !hasValue {
 		verifAssert(t.AttributeFormat == 0 && t.AttributeType == at && verifBytesEq(t.VariableLengthAttributeValue, vv), "C19/Transform/tlv-attribute")
+		verifAssert(verifFresh(t.VariableLengthAttributeValue) && verifDisjoint(t.VariableLengthAttributeValue, vv), "C19/Transform/data-copied-into-fresh-storage")
 	}
 	p.EncryptionAlgorithm.Reset()
 	sa.Proposals.Reset()
@@ -250,6 +261,7 @@ func lemma_C19_EAP(withPrior bool, pre []byte, code, id uint8) {
 func lemma_C19_EapExpanded(vid, vt uint32, data []byte) {
 	x := BuildEapExpanded(vid, vt, data)
 	verifAssert(x.VendorID == vid && x.VendorType == vt && verifBytesEq(x.VendorData, data), "C19/EapExpanded/fields")
+	verifAssert(verifFresh(x.VendorData) && verifDisjoint(x.VendorData, data), "C19/EapExpanded/data-copied-into-fresh-storage")
 }
 
 // TS 24.502 9.3.2.2.1: EAP-5G Start = EAP-Request/Expanded, vendor 10415, type 3,
@@ -264,6 +276,7 @@ func lemma_C19_EAP5GStart(withPrior bool, pre []byte, id uint8) {
 	verifAssert(ok && x.EAP != nil && x.Code == eap_message.EapCodeRequest && x.Identifier == id, "C19/EAP5GStart/eap-request")
 	e, ok2 := x.EapTypeData.(*eap_message.EapExpanded)
 	verifAssert(ok2 && e.VendorID == 10415 && e.VendorType == 3 && len(e.VendorData) == 2 && e.VendorData[0] == 1 && e.VendorData[1] == 0, "C19/EAP5GStart/ts24502-layout")
+	verifAssert(verifFresh(e.VendorData), "C19/EAP5GStart/data-copied-into-fresh-storage")
 }
 
 // TS 24.502 9.3.2.2.2: 5G-NAS = message-id 2, spare 0, NAS-PDU length (16 bit), NAS-PDU
@@ -283,6 +296,7 @@ func lemma_C19_EAP5GNAS(withPrior bool, pre []byte, id uint8, pdu []byte) {
 	verifAssert(ok2 && e.VendorID == 10415 && e.VendorType == 3 && len(e.VendorData) == 4+len(pdu), "C19/EAP5GNAS/vendor-and-size")
 	d := e.VendorData
 	verifAssert(d[0] == 2 && d[1] == 0 && int(d[2])<<8|int(d[3]) == len(pdu) && verifBytesEq(d[4:], pdu), "C19/EAP5GNAS/ts24502-layout")
+	verifAssert(verifFresh(d) && verifDisjoint(d, pdu), "C19/EAP5GNAS/data-copied-into-fresh-storage")
 }
 
 // TS 24.502 9.3.1.1: 5G_QOS_INFO = length, PDU session id, number of QFIs, QFIs,
